@@ -1,10 +1,11 @@
 (* WGProofs.v — the C01 / C02 facts about the pair-CAS machine, derived from the inductive
    invariant of WGInv.v.  Nothing here depends on the number of threads, the length of the
    client programs or the schedule.                                                        *)
-From Coq Require Import List Arith ZArith Bool Lia.
+From Coq Require Import List Arith ZArith Bool Lia String.
 From GT Require Import Base.Conc.
 From GT Require Import Base.ConcFacts.
-From GT Require Import WGModel WGSpec WGInv.
+From GT Require Import Base.ConcIR.
+From GT Require Import WGModel WGSpec WGInv WGProg.
 Import ListNotations.
 Local Open Scope Z_scope.
 
@@ -199,3 +200,27 @@ Proof.
   destruct l; try destruct Hwf.
   destruct (wait_one_step _ _ _ H) as (o & st & E & _). unfold wg_solo, solo. cbn. eauto.
 Qed.
+
+(* ---------------------------------------------------------------- IR listing vs. machines
+   every site of the listing regenerated from the source is a program counter of the machine
+   (via wg_site / wgo_site) and carries the operation the machine's micro-step performs *)
+Lemma hand_prog_sites :
+  hand_site_ops =
+  [ (wg_site (CAdd 0) A0, [OAtomic ALoad "state"]);
+    (wg_site (CAdd 0) (A1 0 0 0), [OAtomic ACAS "state"]);
+    (wg_site (CAdd 0) (A2 0 0), [OClose]);
+    (wg_site CWait W0, [OAtomic ALoad "state"]);
+    (wg_site CCount C0, [OAtomic ALoad "state"]) ]%string.
+Proof. reflexivity. Qed.
+
+Lemma hand_prog_orig_sites :
+  hand_site_ops_orig =
+  [ (wgo_site (CAdd 0) OA0, [OAtomic AAdd "count"]);
+    (wgo_site (CAdd 0) (OA1 0), [OAtomic ASwap "wChan"]);
+    (wgo_site (CAdd 0) (OA2 0 0), [OClose]);
+    (wgo_site (CAdd 0) (OA3 0 0), [OAtomic ACAS "wChan"]);
+    (wgo_site (CAdd 0) (OA4 0 0), [OClose]);
+    (wgo_site CWait OW0, [OAtomic ALoad "count"]);
+    (wgo_site CWait (OW1 0), [OAtomic ALoad "wChan"]);
+    (wgo_site CCount OC0, [OAtomic ALoad "count"]) ]%string.
+Proof. reflexivity. Qed.
